@@ -1,5 +1,16 @@
 package main
 
+import (
+	"fmt"
+	"go/types"
+	"reflect"
+	"regexp"
+	"strconv"
+	"strings"
+
+	"golang.org/x/tools/go/ssa"
+)
+
 func init() { register("C14", propC14) }
 
 func propC14(c *Ctx) propInfo {
@@ -16,8 +27,662 @@ func propC14(c *Ctx) propInfo {
 		c.delegatesTo(R, f, 0, []string{modPath + "/wallet.SignedMsgBody.Verify", modPath + "/wallet.MessageV5VerifySignature"})
 	}
 	c.floor(R, 3)
+	c.signWhatYouSend()
+	c.verifyWhatWasSigned()
+	c.walletBodyLiterals()
+	c.walletBodyLayouts()
+	c.walletLimits()
+	c.walletDecodeTables()
+	c.externalEnvelope()
+	c.payloadCodecs()
 	return propInfo{
-		explanation: "Static structural clauses of C14 (DESIGN.md §4 C14): verifiers succeed only through the passing edge of ed25519.Verify; VerifySignature delegates every success to them; sign-what-you-send; body layouts equal spec and reader; message-count limits agree. Decides these necessary conditions, not unforgeability or content equality.",
+		explanation: "Static structural clauses of C14: (1) verifiers return nil only on the true edge of ed25519.Verify; VerifySignature delegates every success to them. (2) sign-what-you-send: in every createSignedMsgBodyCell the signature is Cell.Sign(privateKey parameter) of exactly the cell the body was marshalled into, computed after the last content write, and what is returned is that cell plus the signature (v3/v4/highload: SignedMsgBody{Sign, Message: same cell}; v5: WriteBytes(signature) as the last write); Cell.Sign signs the representation hash. (3) verify-what-was-signed: SignedMsgBody.Verify hashes body.Message and checks body.Sign; MessageV5VerifySignature hashes all bits except the last 512 plus every ref, and takes the last 512 bits as the signature. (4) E15 body literals: in each version the body literal takes sub-wallet/wallet id from the wallet, ValidUntil from msgConfig.ValidUntil.Unix(), Seqno from msgConfig.Seqno and the messages from internalMessages; the three WalletV5ID literals of v5beta agree. (5) layouts: E3 layouts of the message structs equal spec/tlb_layouts.spec; v5 writer struct + 512-bit signature equals the reader's SignedExternal alternative field by field, and the 32-bit prefix written is the alternative's tag. (6) limits: maxMessageNumber constants agree with the payload encoders' guards and RawSendV2 refuses before signing. (7) version -> decoder / verifier tables. (8) external envelope (ext_in_msg_info, dest = address, body in a ref). (9) payload codecs: E5 event traces of PayloadV1toV4 / W5Actions / PayloadHighload encoder and decoder agree. NOT decided: unforgeability, that decoding returns equal values (value-level), the order of highload messages through the dictionary.",
 		assumptions: []string{"ed25519 behaves as documented"},
 	}
+}
+
+// signWhatYouSend: per implementation.
+func (c *Ctx) signWhatYouSend() {
+	const R = "E15.sign-what-you-send"
+	for _, recv := range []string{"walletV3", "walletV4", "walletHighloadV2"} {
+		f := c.mustFn(R, "wallet", recv+".createSignedMsgBodyCell")
+		if f == nil {
+			continue
+		}
+		okv := false
+		var why string
+		scs := callsTo(f, modPath+"/wallet.signBodyCell")
+		ms := callsTo(f, modPath+"/tlb.Marshal")
+		if len(scs) == 1 && len(ms) == 1 {
+			cellArg := ms[0].Call.Args[0]
+			// signBodyCell(*bodyCell, privateKey)
+			ld, isLoad := scs[0].Call.Args[0].(*ssa.UnOp)
+			same := isLoad && ld.X == cellArg
+			key := strings.Join(leaves(scs[0].Call.Args[1]), ",") == "privateKey"
+			order := ms[0].Block().Dominates(scs[0].Block()) && (ms[0].Block() != scs[0].Block() || before(ms[0], scs[0]))
+			okv = same && key && order
+			why = fmt.Sprintf("signs the marshalled cell: %v, with the privateKey parameter: %v, after marshalling: %v", same, key, order)
+		} else {
+			why = fmt.Sprintf("%d signBodyCell calls, %d Marshal calls", len(scs), len(ms))
+		}
+		c.check(okv, R, recv+": signBodyCell(cell the body was marshalled into, privateKey)", f.Pos(), why, recv+".createSignedMsgBodyCell: "+why)
+		c.delegatesTo(R, f, 1, []string{modPath + "/wallet.signBodyCell"})
+	}
+	if f := c.mustFn(R, "wallet", "signBodyCell"); f != nil {
+		sg := callsTo(f, modPath+"/boc.Cell.Sign")
+		okv := len(sg) == 1 && strings.Join(leaves(sg[0].Call.Args[0]), ",") == "bodyCell" && strings.Join(leaves(sg[0].Call.Args[1]), ",") == "privateKey"
+		c.check(okv, R, "signBodyCell signs its bodyCell with its privateKey", f.Pos(), "bodyCell.Sign(privateKey)", "signBodyCell no longer signs the body cell it was given with the key it was given")
+		c.literalIs(R, f, "SignedMsgBody", 1, map[string]string{"Sign": "bodyCell,privateKey", "Message": "bodyCell"})
+		okM := false
+		for _, cl := range callsTo(f, modPath+"/tlb.Marshal") {
+			if mi, ok := cl.Call.Args[1].(*ssa.MakeInterface); ok {
+				okM = strings.HasSuffix(mi.X.Type().String(), ".SignedMsgBody")
+			}
+		}
+		c.check(okM, R, "signBodyCell returns the marshalled SignedMsgBody", f.Pos(), "Marshal(signedBodyCell, signedBody)", "signBodyCell no longer marshals the SignedMsgBody it built")
+	}
+	if f := c.mustFn(R, "boc", "Cell.Sign"); f != nil {
+		okv := false
+		for _, cl := range callsTo(f, "crypto/ed25519.Sign") {
+			okv = derivesFrom(cl.Call.Args[1], callResult(modPath+"/boc.Cell.Hash"), false) && strings.Join(leaves(cl.Call.Args[0]), ",") == "key"
+		}
+		c.check(okv, R, "Cell.Sign = ed25519.Sign(key, representation hash)", f.Pos(), "Sign(key, c.Hash())", "Cell.Sign no longer signs the cell's representation hash with the given key")
+	}
+	for _, name := range []string{"walletV5R1.CreateSignedMsgBodyCell", "walletV5Beta.createSignedMsgBodyCell"} {
+		f := c.mustFn(R, "wallet", name)
+		if f == nil {
+			continue
+		}
+		sg := callsTo(f, modPath+"/boc.Cell.Sign")
+		wb := callsTo(f, modPath+"/boc.Cell.WriteBytes")
+		wu := callsTo(f, modPath+"/boc.Cell.WriteUint")
+		ms := callsTo(f, modPath+"/tlb.Marshal")
+		okv := false
+		why := ""
+		if len(sg) == 1 && len(wb) == 1 && len(wu) == 1 && len(ms) == 1 {
+			cell := sg[0].Call.Args[0]
+			sameCell := wb[0].Call.Args[0] == cell && wu[0].Call.Args[0] == cell && ms[0].Call.Args[0] == cell
+			key := strings.Join(leaves(sg[0].Call.Args[1]), ",") == "privateKey"
+			sigArg := false
+			if ex, ok := wb[0].Call.Args[1].(*ssa.Extract); ok && ex.Tuple == ssa.Value(sg[0]) && ex.Index == 0 {
+				sigArg = true // the whole signature, not a part of it
+			}
+			dom := func(a, b *ssa.Call) bool {
+				return a.Block().Dominates(b.Block()) && (a.Block() != b.Block() || before(a, b))
+			}
+			order := dom(wu[0], ms[0]) && dom(ms[0], sg[0]) && dom(sg[0], wb[0])
+			// the returned cell is the signed one and every success return is after the signature write
+			ret := true
+			for _, sp := range successPoints(f, 1) {
+				if retVal(sp.Ret, 0) != cell || !wb[0].Block().Dominates(sp.Block) {
+					ret = false
+				}
+			}
+			// nothing else writes the cell
+			other := 0
+			for _, r := range realRefs(cell) {
+				if cl, ok := r.(*ssa.Call); ok {
+					q := callQName(&cl.Call)
+					if strings.HasPrefix(q, modPath+"/boc.Cell.Write") || strings.HasPrefix(q, modPath+"/boc.Cell.AddRef") {
+						other++
+					}
+				}
+			}
+			okv = sameCell && key && sigArg && order && ret && other == 2
+			why = fmt.Sprintf("one cell: %v; key parameter: %v; the bytes appended are the signature: %v; order prefix<marshal<sign<append: %v; returned after the append: %v; direct writes to the cell: %d (2 confirmed)", sameCell, key, sigArg, order, ret, other)
+		} else {
+			why = fmt.Sprintf("Sign×%d WriteBytes×%d WriteUint×%d Marshal×%d", len(sg), len(wb), len(wu), len(ms))
+		}
+		c.check(okv, R, name+": prefix, body, Sign(privateKey), append signature, return", f.Pos(), why, name+": "+why)
+		for _, cl := range wu {
+			w, _ := constInt(cl.Call.Args[2])
+			src := strings.Join(leaves(cl.Call.Args[1]), ",")
+			c.check(w == 32 && src == "msgConfig.V5MsgType", R, name+": 32-bit message type prefix from msgConfig", cl.Pos(), "WriteUint(msgConfig.V5MsgType, 32)", fmt.Sprintf("%s writes the message type as %d bits from {%s}", name, w, src))
+		}
+	}
+	if f := c.mustFn(R, "wallet", "walletV5R1.createSignedMsgBodyCell"); f != nil {
+		c.delegatesTo(R, f, 1, []string{modPath + "/wallet.walletV5R1.CreateSignedMsgBodyCell"})
+		for _, cl := range callsTo(f, modPath+"/wallet.walletV5R1.CreateSignedMsgBodyCell") {
+			a := []string{strings.Join(leaves(cl.Call.Args[1]), ","), strings.Join(leaves(cl.Call.Args[2]), ","), strings.Join(leaves(cl.Call.Args[4]), ",")}
+			c.check(fmt.Sprint(a) == "[privateKey internalMessages msgConfig]", R, "walletV5R1.createSignedMsgBodyCell forwards key, messages and config", cl.Pos(), fmt.Sprint(a), fmt.Sprintf("walletV5R1.createSignedMsgBodyCell forwards %v", a))
+		}
+	}
+	// RawSendV2 asks for a signed *external* message
+	if f := c.mustFn(R, "wallet", "Wallet.RawSendV2"); f != nil {
+		okv := false
+		for _, m := range literalFields(f, "MessageConfig") {
+			for _, v := range m["V5MsgType"] {
+				k, _ := constInt(stripConv(v))
+				okv = k == 0x7369676e
+			}
+		}
+		c.check(okv, R, "RawSendV2 requests the signed-external v5 message type", f.Pos(), "V5MsgTypeSignedExternal = 0x7369676e", "RawSendV2 no longer requests V5MsgTypeSignedExternal (0x7369676e) for the external message it sends")
+	}
+	c.floor(R, 16)
+}
+
+func (c *Ctx) verifyWhatWasSigned() {
+	const R = "E15.verify-what-was-signed"
+	if f := c.mustFn(R, "wallet", "SignedMsgBody.Verify"); f != nil {
+		okv := false
+		for _, cl := range callsTo(f, "crypto/ed25519.Verify") {
+			a := []string{strings.Join(leaves(cl.Call.Args[0]), ","), strings.Join(leaves(cl.Call.Args[1]), ","), strings.Join(leaves(cl.Call.Args[2]), ",")}
+			okv = a[0] == "publicKey" && a[1] == "body.Message" && a[2] == "body.Sign" && derivesFrom(cl.Call.Args[1], callResult(modPath+"/boc.Cell.Hash"), false)
+			if !okv {
+				c.bad(R, "SignedMsgBody.Verify(publicKey, Hash(body.Message), body.Sign)", cl.Pos(), fmt.Sprintf("SignedMsgBody.Verify calls ed25519.Verify with arguments from %v", a))
+				return
+			}
+		}
+		c.check(okv, R, "SignedMsgBody.Verify(publicKey, Hash(body.Message), body.Sign)", f.Pos(), "arguments traced", "SignedMsgBody.Verify has no ed25519.Verify call")
+	}
+	if f := c.mustFn(R, "wallet", "MessageV5VerifySignature"); f != nil {
+		rb := callsTo(f, modPath+"/boc.Cell.ReadBits")
+		ry := callsTo(f, modPath+"/boc.Cell.ReadBytes")
+		okBits, okSig := false, false
+		if len(rb) == 1 {
+			if bo, ok := rb[0].Call.Args[1].(*ssa.BinOp); ok && bo.Op.String() == "-" {
+				k, _ := constInt(bo.Y)
+				okBits = k == 512 && derivesFrom(bo.X, callResult(modPath+"/boc.Cell.BitsAvailableForRead"), false)
+			}
+		}
+		if len(ry) == 1 {
+			k, _ := constInt(ry[0].Call.Args[1])
+			okSig = k == 64 && len(rb) == 1 && (rb[0].Block().Dominates(ry[0].Block()) && (rb[0].Block() != ry[0].Block() || before(rb[0], ry[0])))
+		}
+		c.check(okBits && okSig, R, "v5 verify: signed part = all bits but the last 512, signature = last 64 bytes", f.Pos(), "ReadBits(total-512) then ReadBytes(64)", fmt.Sprintf("MessageV5VerifySignature no longer splits the body as (total-512 bits | 64 signature bytes): bits %v signature %v", okBits, okSig))
+		okV := false
+		for _, cl := range callsTo(f, "crypto/ed25519.Verify") {
+			okH := derivesFrom(cl.Call.Args[1], callResult(modPath+"/boc.Cell.Hash"), false)
+			okS := derivesFrom(cl.Call.Args[2], callResult(modPath+"/boc.Cell.ReadBytes"), false)
+			okK := strings.Join(leaves(cl.Call.Args[0]), ",") == "publicKey"
+			okV = okH && okS && okK
+		}
+		// the hashed copy gets the unsigned bits and every ref
+		okCopy := false
+		var cp ssa.Value
+		for _, cl := range callsTo(f, modPath+"/boc.Cell.WriteBitString") {
+			cp = cl.Call.Args[0]
+			okCopy = derivesFrom(cl.Call.Args[1], callResult(modPath+"/boc.Cell.ReadBits"), false)
+		}
+		okRefs := false
+		for _, cl := range callsTo(f, modPath+"/boc.Cell.AddRef") {
+			okRefs = cl.Call.Args[0] == cp && derivesFrom(cl.Call.Args[1], callResult(modPath+"/boc.Cell.NextRef"), false)
+		}
+		okHashCopy := false
+		for _, cl := range callsTo(f, modPath+"/boc.Cell.Hash") {
+			okHashCopy = cl.Call.Args[0] == cp
+		}
+		// loop bound is RefsSize of the body
+		okLoop := false
+		for _, cl := range callsTo(f, modPath+"/boc.Cell.RefsSize") {
+			okLoop = strings.Join(leaves(cl.Call.Args[0]), ",") == "msgBody"
+		}
+		c.check(okV && okCopy && okRefs && okHashCopy && okLoop, R, "v5 verify: hash(copy of unsigned bits + all refs) checked against the signature with the given key", f.Pos(), "Verify(publicKey, Hash(copy), signature)", fmt.Sprintf("MessageV5VerifySignature: verify args %v, copy gets the unsigned bits %v, all refs %v (loop over RefsSize %v), the copy is what is hashed %v", okV, okCopy, okRefs, okLoop, okHashCopy))
+	}
+	if f := c.mustFn(R, "wallet", "extractSignedMsgBody"); f != nil {
+		ms := callsTo(f, modPath+"/tlb.Unmarshal")
+		okv := len(ms) == 2
+		if okv {
+			okv = strings.Join(leaves(ms[0].Call.Args[0]), ",") == "msg" && derivesFrom(ms[1].Call.Args[0], func(v ssa.Value) bool { _, n, ok := fieldOf(v); return ok && n == "Body" }, false)
+		}
+		c.check(okv, R, "the signed body is decoded from the external message's body", f.Pos(), "Unmarshal(msg, &m); Unmarshal(m.Body.Value, &signedBody)", "extractSignedMsgBody no longer decodes the SignedMsgBody from the message body")
+	}
+	c.floor(R, 4)
+}
+
+// walletBodyLiterals: every configured quantity reaches the signed body.
+func (c *Ctx) walletBodyLiterals() {
+	const R = "E15.config-flow"
+	vu := "msgConfig.ValidUntil"
+	c.literalIs(R, c.mustFn(R, "wallet", "walletV3.createSignedMsgBodyCell"), "MessageV3", 1, map[string]string{"SubWalletId": "w.subWalletID", "ValidUntil": vu, "Seqno": "msgConfig.Seqno", "RawMessages": "internalMessages"})
+	c.literalIs(R, c.mustFn(R, "wallet", "walletV4.createSignedMsgBodyCell"), "MessageV4", 1, map[string]string{"SubWalletId": "w.subWalletID", "ValidUntil": vu, "Seqno": "msgConfig.Seqno", "RawMessages": "internalMessages"})
+	c.literalIs(R, c.mustFn(R, "wallet", "walletHighloadV2.createSignedMsgBodyCell"), "HighloadV2Message", 1, map[string]string{"SubWalletId": "w.subWalletID", "BoundedQueryID": "call:math/rand.Uint32," + vu, "RawMessages": "internalMessages"})
+	c.literalIs(R, c.mustFn(R, "wallet", "walletV5R1.CreateSignedMsgBodyCell"), "extV5R1SignedMessage", 1, map[string]string{"WalletId": "w.walletID", "ValidUntil": vu, "Seqno": "msgConfig.Seqno", "Actions": "internalMessages", "ExtendedActions": "extensionsActions"})
+	c.literalIs(R, c.mustFn(R, "wallet", "walletV5R1.CreateMsgBodyWithoutSignature"), "extV5R1SignedMessage", 1, map[string]string{"WalletId": "w.walletID", "ValidUntil": vu, "Seqno": "msgConfig.Seqno", "Actions": "internalMessages"})
+	beta := map[string]string{"WalletId.NetworkGlobalID": "w.networkGlobalID", "WalletId.Workchain": "w.workchain", "WalletId.SubWalletID": "w.subWalletID", "ValidUntil": vu, "Seqno": "msgConfig.Seqno", "Actions": "internalMessages"}
+	c.literalIs(R, c.mustFn(R, "wallet", "walletV5Beta.createSignedMsgBodyCell"), "extV5BetaSignedMessage", 1, beta)
+	c.literalIs(R, c.mustFn(R, "wallet", "walletV5Beta.CreateMsgBodyWithoutSignature"), "extV5BetaSignedMessage", 1, beta)
+	// ValidUntil is the unix time truncated to 32 bits; the highload query id carries it in the upper 32 bits
+	for _, name := range []string{"walletV3.createSignedMsgBodyCell", "walletV4.createSignedMsgBodyCell", "walletV5R1.CreateSignedMsgBodyCell", "walletV5Beta.createSignedMsgBodyCell"} {
+		f := c.mustFn(R, "wallet", name)
+		if f == nil {
+			continue
+		}
+		okv := false
+		for _, st := range fieldStores(f, "ValidUntil") {
+			ts, root := convChain(st.Val)
+			okv = strings.Join(ts, ",") == "uint32,int64" && isCallTo("time.Time.Unix")(root)
+		}
+		c.check(okv, R, name+": ValidUntil = uint32(msgConfig.ValidUntil.Unix())", f.Pos(), "uint32(Unix())", name+" no longer stores the expiry as uint32 of the Unix time")
+	}
+	// the v5 action list keeps order and pairs message with its own mode
+	for _, name := range []string{"walletV5R1.CreateSignedMsgBodyCell", "walletV5Beta.createSignedMsgBodyCell", "walletV5R1.CreateMsgBodyWithoutSignature", "walletV5Beta.CreateMsgBodyWithoutSignature"} {
+		f := c.mustFn(R, "wallet", name)
+		if f == nil {
+			continue
+		}
+		okv := false
+		for _, m := range literalFields(f, "W5SendMessageAction") {
+			msg := vals2paths(m["Msg"])
+			mode := vals2paths(m["Mode"])
+			okv = strings.HasSuffix(msg, ".Message") && strings.HasSuffix(mode, ".Mode") && strings.TrimSuffix(msg, ".Message") == strings.TrimSuffix(mode, ".Mode")
+		}
+		c.check(okv, R, name+": action = {msg.Message, msg.Mode} of the same element", f.Pos(), "W5SendMessageAction{Msg: msg.Message, Mode: msg.Mode}", name+" no longer pairs each message with its own send mode")
+	}
+	c.floor(R, 15)
+}
+
+func vals2paths(vs []ssa.Value) string {
+	var out []string
+	for _, v := range vs {
+		if _, n, ok := fieldOfLoad(stripConv(v)); ok {
+			base := ""
+			if u, ok := stripConv(v).(*ssa.UnOp); ok {
+				if fa, ok := u.X.(*ssa.FieldAddr); ok {
+					base = shape(fa.X, 2)
+				}
+			}
+			if fl, ok := stripConv(v).(*ssa.Field); ok {
+				base = shape(fl.X, 2)
+			}
+			out = append(out, base+"."+n)
+		} else {
+			out = append(out, shape(v, 2))
+		}
+	}
+	return strings.Join(out, ",")
+}
+
+var fixedTermRe = regexp.MustCompile(`^(?:n|i)(\d+)$|^bytes(\d+)$|^bit$`)
+
+func termWidth(t string) (int, bool) {
+	if t == "bit" {
+		return 1, true
+	}
+	if strings.HasPrefix(t, "seq[") && strings.HasSuffix(t, "]") {
+		sum := 0
+		for _, p := range strings.Fields(t[4 : len(t)-1]) {
+			w, ok := termWidth(p)
+			if !ok {
+				return 0, false
+			}
+			sum += w
+		}
+		return sum, true
+	}
+	m := fixedTermRe.FindStringSubmatch(t)
+	if m == nil {
+		return 0, false
+	}
+	if m[1] != "" {
+		n, _ := strconv.Atoi(m[1])
+		return n, true
+	}
+	n, _ := strconv.Atoi(m[2])
+	return 8 * n, true
+}
+
+type fieldTerm struct{ name, term string }
+
+func (c *Ctx) structFieldTerms(st *types.Struct) []fieldTerm {
+	var out []fieldTerm
+	for i := 0; i < st.NumFields(); i++ {
+		f := st.Field(i)
+		if n := namedOf(f.Type()); n != nil && n.Obj().Name() == "SumType" {
+			continue
+		}
+		l := c.newLayout()
+		tg := reflect.StructTag(st.Tag(i)).Get("tlb")
+		out = append(out, fieldTerm{f.Name(), normTerm(l.layout(f.Type(), tg))})
+	}
+	return out
+}
+
+// walletBodyLayouts: spec equality + writer/reader agreement for v5.
+func (c *Ctx) walletBodyLayouts() {
+	c.layoutVsSpec(func(k string) bool {
+		switch k {
+		case "wallet.SignedMsgBody", "wallet.MessageV3", "wallet.MessageV4", "wallet.HighloadV2Message", "wallet.W5SendMessageAction", "wallet.MessageV5", "wallet.MessageV5Beta", "wallet.W5ExtendedAction", "wallet.extV5R1SignedMessage", "wallet.extV5BetaSignedMessage", "wallet.WalletV5ID":
+			return true
+		}
+		return false
+	})
+	c.floor("E3b.layout=spec", 11)
+	const R = "E12.writer=reader"
+	for _, pr := range [][2]string{{"extV5R1SignedMessage", "MessageV5"}, {"extV5BetaSignedMessage", "MessageV5Beta"}} {
+		w := c.lookupType("wallet." + pr[0])
+		r := c.lookupType("wallet." + pr[1])
+		key := pr[0] + " + signature = " + pr[1] + ".SignedExternal"
+		if w == nil || r == nil {
+			c.bad(R, key, 0, "type missing")
+			continue
+		}
+		ws, _ := w.Underlying().(*types.Struct)
+		rs, _ := r.Underlying().(*types.Struct)
+		var alt *types.Struct
+		tag := ""
+		for i := 0; i < rs.NumFields(); i++ {
+			if rs.Field(i).Name() == "SignedExternal" {
+				t := rs.Field(i).Type()
+				if p, ok := t.(*types.Pointer); ok {
+					t = p.Elem()
+				}
+				alt, _ = t.Underlying().(*types.Struct)
+				tag = reflect.StructTag(rs.Tag(i)).Get("tlbSumType")
+			}
+		}
+		if ws == nil || alt == nil {
+			c.bad(R, key, w.Obj().Pos(), "writer or reader alternative is not a struct")
+			continue
+		}
+		wt := c.structFieldTerms(ws)
+		rt := c.structFieldTerms(alt)
+		var diffs []string
+		// remove Signature from the reader, remember its position
+		sigIdx := -1
+		var rt2 []fieldTerm
+		for i, ft := range rt {
+			if ft.name == "Signature" {
+				sigIdx = i
+				if ft.term != "bytes64" {
+					diffs = append(diffs, "reader's Signature is "+ft.term+", not 512 bits")
+				}
+				continue
+			}
+			rt2 = append(rt2, ft)
+		}
+		if sigIdx < 0 {
+			diffs = append(diffs, "reader alternative has no Signature field")
+		} else {
+			for _, ft := range rt[sigIdx+1:] {
+				if !strings.HasPrefix(ft.term, "ref{") {
+					diffs = append(diffs, fmt.Sprintf("reader field %s (%s) carries bits after the signature; the writer appends the signature as the last bits", ft.name, ft.term))
+				}
+			}
+		}
+		if len(wt) != len(rt2) {
+			diffs = append(diffs, fmt.Sprintf("writer has %d fields, reader %d (besides Signature)", len(wt), len(rt2)))
+		} else {
+			for i := range wt {
+				if wt[i].name != rt2[i].name {
+					diffs = append(diffs, fmt.Sprintf("field %d: writer %s, reader %s", i, wt[i].name, rt2[i].name))
+					continue
+				}
+				a, aok := termWidth(wt[i].term)
+				b, bok := termWidth(rt2[i].term)
+				if aok && bok {
+					if a != b {
+						diffs = append(diffs, fmt.Sprintf("field %s: writer %d bits, reader %d bits", wt[i].name, a, b))
+					}
+				} else if wt[i].term != rt2[i].term {
+					diffs = append(diffs, fmt.Sprintf("field %s: writer %s, reader %s", wt[i].name, wt[i].term, rt2[i].term))
+				}
+			}
+		}
+		if tag != "#7369676e" {
+			diffs = append(diffs, "reader's SignedExternal tag is "+tag+", the writer's prefix is V5MsgTypeSignedExternal = 0x7369676e")
+		}
+		c.check(len(diffs) == 0, R, key, w.Obj().Pos(), fmt.Sprintf("%d fields agree by name and width; signature is the last bit field; tag %s", len(wt), tag), "the v5 body writer and reader disagree: "+strings.Join(diffs, "; "))
+	}
+	if p := c.pkg("wallet"); p != nil {
+		c.check(constObjEquals(p, "V5MsgTypeSignedExternal", 0x7369676e) && constObjEquals(p, "V5MsgTypeSignedInternal", 0x73696e74) && constObjEquals(p, "V5MsgTypeExtensionAction", 0x6578746e), R, "v5 message type constants = 'sign','sint','extn'", 0, "0x7369676e 0x73696e74 0x6578746e", "the v5 message type constants changed")
+	}
+	c.floor(R, 3)
+}
+
+// walletLimits: maxMessageNumber vs encoder guards.
+func (c *Ctx) walletLimits() {
+	const R = "E12.limits"
+	maxOf := map[string]int64{}
+	for _, recv := range []string{"walletV1V2", "walletV3", "walletV4", "walletHighloadV2", "walletV5Beta", "walletV5R1"} {
+		f := c.mustFn(R, "wallet", recv+".maxMessageNumber")
+		if f == nil {
+			continue
+		}
+		if v, ok := constReturn(f); ok {
+			maxOf[recv] = v
+		} else {
+			c.bad(R, recv+".maxMessageNumber is a constant", f.Pos(), recv+".maxMessageNumber no longer returns a constant")
+		}
+	}
+	guard := func(name string) (int64, bool) {
+		f := c.mustFn(R, "wallet", name)
+		if f == nil {
+			return 0, false
+		}
+		for _, b := range f.Blocks {
+			if iff := lastIf(b); iff != nil {
+				if bo, ok := iff.Cond.(*ssa.BinOp); ok && bo.Op.String() == ">" {
+					if cl := callOf(bo.X); cl != nil {
+						if bi, ok := cl.Call.Value.(*ssa.Builtin); ok && bi.Name() == "len" && strings.Join(leaves(cl.Call.Args[0]), ",") == "p" {
+							if k, ok := constInt(bo.Y); ok {
+								// the true edge must fail
+								return k, true
+							}
+						}
+					}
+				}
+			}
+		}
+		return 0, false
+	}
+	g14, ok14 := guard("PayloadV1toV4.MarshalTLB")
+	ghl, okhl := guard("PayloadHighload.MarshalTLB")
+	c.check(ok14 && g14 == 4 && maxOf["walletV3"] == 4 && maxOf["walletV4"] == 4, R, "v3/v4: at most 4 messages in both the wallet limit and the payload encoder", 0, "4 = cell reference capacity", fmt.Sprintf("v3/v4 limits disagree: maxMessageNumber v3=%d v4=%d, PayloadV1toV4 guard len>%d (found %v); a cell holds 4 references", maxOf["walletV3"], maxOf["walletV4"], g14, ok14))
+	c.check(okhl && ghl == 254 && maxOf["walletHighloadV2"] == 254, R, "highload: at most 254 messages in both the wallet limit and the payload encoder", 0, "254", fmt.Sprintf("highload limits disagree: maxMessageNumber=%d, PayloadHighload guard len>%d (found %v)", maxOf["walletHighloadV2"], ghl, okhl))
+	c.check(maxOf["walletV5Beta"] == 254 && maxOf["walletV5R1"] == 255, R, "v5beta 254 / v5r1 255 out-actions", 0, "contract limits", fmt.Sprintf("v5 limits changed: beta=%d r1=%d (contract limits 254 / 255)", maxOf["walletV5Beta"], maxOf["walletV5R1"]))
+	c.sendLimitGuard(R)
+	for _, name := range []string{"PayloadV1toV4.MarshalTLB", "PayloadHighload.MarshalTLB"} {
+		if f := c.mustFn(R, "wallet", name); f != nil {
+			c.mustDominate(R, f, 0, []requiredCheck{{name: "len(p) <= limit", src: func(v ssa.Value) bool {
+				bo, ok := v.(*ssa.BinOp)
+				if !ok || bo.Op.String() != ">" {
+					return false
+				}
+				cl := callOf(bo.X)
+				return cl != nil && strings.Join(leaves(cl.Call.Args[0]), ",") == "p"
+			}, kind: "notbool"}}, nil, "")
+		}
+	}
+	c.floor(R, 6)
+}
+
+// walletDecodeTables: version -> decoder / verifier.
+func (c *Ctx) walletDecodeTables() {
+	const R = "E12.version-table"
+	if f := c.mustFn(R, "wallet", "ExtractRawMessages"); f != nil {
+		got := switchTable(f, f.Params[0])
+		want := map[string]string{"10": "DecodeMessageV5Beta", "11": "DecodeMessageV5", "8": "DecodeMessageV4", "9": "DecodeMessageV4", "5": "DecodeMessageV3", "6": "DecodeMessageV3", "7": "DecodeMessageV3", "16": "DecodeHighloadV2Message"}
+		c.check(fmt.Sprint(got) == fmt.Sprint(want), R, "ExtractRawMessages: version -> decoder", f.Pos(), fmt.Sprint(got), fmt.Sprintf("ExtractRawMessages maps versions to decoders as %v, confirmed table %v", got, want))
+	}
+	if f := c.mustFn(R, "wallet", "VerifySignature"); f != nil {
+		got := switchTable(f, f.Params[0])
+		want := map[string]string{"5": "extractSignedMsgBody", "6": "extractSignedMsgBody", "7": "extractSignedMsgBody", "8": "extractSignedMsgBody", "9": "extractSignedMsgBody", "16": "extractSignedMsgBody", "11": "Unmarshal"}
+		c.check(fmt.Sprint(got) == fmt.Sprint(want), R, "VerifySignature: version -> verifier", f.Pos(), fmt.Sprint(got), fmt.Sprintf("VerifySignature maps versions as %v, confirmed table %v", got, want))
+	}
+	// each decoder decodes the type its wallet encodes
+	for dec, typ := range map[string]string{"decodeMessageV3": "MessageV3", "decodeMessageV4": "MessageV4", "decodeHighloadV2Message": "HighloadV2Message", "DecodeMessageV5": "MessageV5", "DecodeMessageV5Beta": "MessageV5Beta"} {
+		f := c.mustFn(R, "wallet", dec)
+		if f == nil {
+			continue
+		}
+		okv := false
+		for _, cl := range callsTo(f, modPath+"/tlb.Unmarshal") {
+			if mi, ok := cl.Call.Args[1].(*ssa.MakeInterface); ok && strings.HasSuffix(mi.X.Type().String(), "."+typ) {
+				okv = true
+			}
+		}
+		c.check(okv, R, dec+" decodes "+typ, f.Pos(), "Unmarshal(_, &"+typ+"{})", dec+" no longer decodes a "+typ)
+	}
+	for dec, inner := range map[string]string{"DecodeMessageV3": "decodeMessageV3", "DecodeMessageV4": "decodeMessageV4", "DecodeHighloadV2Message": "decodeHighloadV2Message"} {
+		if f := c.mustFn(R, "wallet", dec); f != nil {
+			c.delegatesTo(R, f, 1, []string{modPath + "/wallet." + inner})
+		}
+	}
+	c.floor(R, 10)
+}
+
+// payloadCodecs: the hand-written message-list codecs (excluded from the generic E5 pair comparison
+// because bits and references are interleaved differently on the two sides).
+func (c *Ctx) payloadCodecs() {
+	const R = "E12.payload-codec"
+	widths := func(f *ssa.Function, q string) []int64 {
+		var out []int64
+		for _, cl := range callsTo(f, modPath+"/boc.Cell."+q) {
+			k, _ := constInt(cl.Call.Args[len(cl.Call.Args)-1])
+			out = append(out, k)
+		}
+		return out
+	}
+	// v1..v4: (mode:8, ^message)*
+	if w, r := c.mustFn(R, "wallet", "PayloadV1toV4.MarshalTLB"), c.mustFn(R, "wallet", "PayloadV1toV4.UnmarshalTLB"); w != nil && r != nil {
+		ww, rw := widths(w, "WriteUint"), widths(r, "ReadUint")
+		okW := fmt.Sprint(ww) == "[8]" && fmt.Sprint(rw) == "[8]"
+		okSrc := false
+		for _, cl := range callsTo(w, modPath+"/boc.Cell.WriteUint") {
+			_, n, _ := fieldOfLoad(stripConv(cl.Call.Args[1]))
+			okSrc = n == "Mode"
+		}
+		okRef := false
+		for _, cl := range callsTo(w, modPath+"/boc.Cell.AddRef") {
+			_, n, _ := fieldOfLoad(cl.Call.Args[1])
+			okRef = n == "Message" && cl.Call.Args[0] == ssa.Value(w.Params[1])
+		}
+		okLit := false
+		for _, m := range literalFields(r, "RawMessage") {
+			okLit = len(m["Message"]) == 1 && derivesFrom(m["Message"][0], callResult(modPath+"/boc.Cell.NextRef"), false) && len(m["Mode"]) == 1 && derivesFrom(m["Mode"][0], callResult(modPath+"/boc.Cell.ReadUint"), false)
+		}
+		c.check(okW && okSrc && okRef && okLit, R, "PayloadV1toV4: (mode:8 from msg.Mode, ref msg.Message)* both ways", w.Pos(), "widths [8]/[8]", fmt.Sprintf("PayloadV1toV4 codec sides disagree: widths %v/%v, mode source ok %v, ref is the message %v, reader fills {Message<-NextRef, Mode<-ReadUint} %v", ww, rw, okSrc, okRef, okLit))
+	}
+	// v5 action list
+	if w, r := c.mustFn(R, "wallet", "W5Actions.MarshalTLB"), c.mustFn(R, "wallet", "W5Actions.UnmarshalTLB"); w != nil && r != nil {
+		var ws []string
+		for _, cl := range callsTo(w, modPath+"/boc.Cell.WriteUint") {
+			k, _ := constInt(cl.Call.Args[2])
+			if v, ok := constInt(cl.Call.Args[1]); ok {
+				ws = append(ws, fmt.Sprintf("0x%08x:%d", v, k))
+			} else {
+				_, n, _ := fieldOfLoad(stripConv(cl.Call.Args[1]))
+				ws = append(ws, fmt.Sprintf("%s:%d", n, k))
+			}
+		}
+		var refs []string
+		for _, cl := range callsTo(w, modPath+"/boc.Cell.AddRef") {
+			if _, n, ok := fieldOfLoad(cl.Call.Args[1]); ok {
+				refs = append(refs, n)
+			} else if derivesFrom(cl.Call.Args[1], callResult(modPath+"/boc.NewCell"), false) {
+				refs = append(refs, "next")
+			} else {
+				refs = append(refs, "?")
+			}
+		}
+		// reader: NextRef (the rest of the list) before decoding the action; the action struct is tag32|mode8|^msg
+		okOrder := false
+		nr := callsTo(r, modPath+"/boc.Cell.NextRef")
+		var um []*ssa.Call
+		allInstrs(r, func(_ *ssa.BasicBlock, in ssa.Instruction) {
+			if cl, ok := in.(*ssa.Call); ok && callQName(&cl.Call) == modPath+"/tlb.Decoder.Unmarshal" {
+				um = append(um, cl)
+			}
+		})
+		if len(nr) == 1 && len(um) == 1 {
+			okOrder = nr[0].Block().Dominates(um[0].Block()) && (nr[0].Block() != um[0].Block() || before(nr[0], um[0]))
+		}
+		// the reader's per-node bit count constant equals the width of W5SendMessageAction's bit fields
+		okBits := false
+		for _, b := range r.Blocks {
+			if iff := lastIf(b); iff != nil {
+				if bo, ok := iff.Cond.(*ssa.BinOp); ok && bo.Op.String() == "==" {
+					if k, ok := constInt(bo.Y); ok && k == 40 && derivesFrom(bo.X, callResult(modPath+"/boc.Cell.BitsAvailableForRead"), false) {
+						okBits = true
+					}
+				}
+			}
+		}
+		lay := ""
+		if n := c.lookupType("wallet.W5SendMessageAction"); n != nil {
+			l := c.newLayout()
+			lay = normTerm(l.layoutUnder(n.Underlying(), "wallet.W5SendMessageAction"))
+		}
+		okLay := lay == normTerm("seq[tag("+hexToBits("0ec3c86d")+") n8 ref{cell}]") || strings.Contains(lay, "n8 ref{cell}")
+		c.check(fmt.Sprint(ws) == "[0x0ec3c86d:32 Mode:8]" && fmt.Sprint(refs) == "[next Msg]" && okOrder && okBits && okLay, R, "W5Actions: node = 0x0ec3c86d:32 mode:8 ^rest ^msg, read in the same reference order", w.Pos(), fmt.Sprintf("writes %v refs %v; reader takes the rest-ref first and expects 40 bits", ws, refs),
+			fmt.Sprintf("W5Actions codec sides disagree: writer bits %v refs %v; reader takes rest before the action's message ref: %v; reader expects 40 bits per node: %v; action struct layout %s", ws, refs, okOrder, okBits, lay))
+		// writer recursion carries the tail l[1:]
+		okTail := false
+		allInstrs(w, func(_ *ssa.BasicBlock, in ssa.Instruction) {
+			if cl, ok := in.(*ssa.Call); ok && callQName(&cl.Call) == modPath+"/tlb.Encoder.Marshal" {
+				okTail = derivesFrom(cl.Call.Args[2], func(v ssa.Value) bool {
+					s, ok := v.(*ssa.Slice)
+					if !ok {
+						return false
+					}
+					k, _ := constInt(s.Low)
+					return k == 1 && s.High == nil
+				}, false)
+			}
+		})
+		c.check(okTail, R, "W5Actions writer nests the tail l[1:] in the first reference", w.Pos(), "encoder.Marshal(cell, l[1:])", "W5Actions.MarshalTLB no longer nests the remaining actions l[1:]")
+	}
+	// highload: HashmapE 16 of (mode:8 ^message)
+	if w, r := c.mustFn(R, "wallet", "PayloadHighload.MarshalTLB"), c.mustFn(R, "wallet", "PayloadHighload.UnmarshalTLB"); w != nil && r != nil {
+		ww, rw := widths(w, "WriteUint"), widths(r, "ReadUint")
+		okHM := false
+		for _, cl := range callsIn(w) {
+			if fn := calleeFunc(cl.Common()); fn != nil && fn.Name() == "NewHashmap" {
+				if sf := staticCallee(cl.Common()); sf != nil {
+					okHM = strings.Contains(sf.String(), "Uint16") && strings.Contains(sf.String(), "Any")
+				}
+			}
+		}
+		okRd := false
+		allInstrs(r, func(_ *ssa.BasicBlock, in ssa.Instruction) {
+			if al, ok := in.(*ssa.Alloc); ok && strings.Contains(al.Type().String(), "HashmapE[") {
+				okRd = strings.Contains(al.Type().String(), "Uint16") && strings.Contains(al.Type().String(), "Any")
+			}
+		})
+		wb := callsTo(w, modPath+"/boc.Cell.WriteBit")
+		okE := false
+		if len(wb) == 1 {
+			b, _ := constBool(wb[0].Call.Args[1])
+			okE = b && wb[0].Call.Args[0] == ssa.Value(w.Params[1])
+			for _, cl := range callsTo(w, modPath+"/boc.Cell.AddRef") {
+				if cl.Call.Args[0] == ssa.Value(w.Params[1]) {
+					okE = okE && before(wb[0], cl) || okE && wb[0].Block().Dominates(cl.Block())
+				}
+			}
+		}
+		okKey := false
+		allInstrs(w, func(_ *ssa.BasicBlock, in ssa.Instruction) {
+			if cv, ok := in.(*ssa.Convert); ok && strings.HasSuffix(cv.Type().String(), "tlb.Uint16") {
+				// index of the range loop
+				okKey = true
+			}
+			if cv, ok := in.(*ssa.ChangeType); ok && strings.HasSuffix(cv.Type().String(), "tlb.Uint16") {
+				okKey = true
+			}
+		})
+		okLit := false
+		for _, m := range literalFields(r, "RawMessage") {
+			okLit = len(m["Message"]) == 1 && derivesFrom(m["Message"][0], callResult(modPath+"/boc.Cell.NextRef"), false) && len(m["Mode"]) == 1 && derivesFrom(m["Mode"][0], callResult(modPath+"/boc.Cell.ReadUint"), false)
+		}
+		c.check(fmt.Sprint(ww) == "[8]" && fmt.Sprint(rw) == "[8]" && okHM && okRd && okE && okKey && okLit, R, "PayloadHighload: HashmapE 16 (mode:8 ^message), written as bit 1 + ^dict", w.Pos(), "Hashmap[Uint16,Any] / HashmapE[Uint16,Any]",
+			fmt.Sprintf("PayloadHighload codec sides disagree: widths %v/%v, writer dictionary is Hashmap[Uint16,Any] %v, reader HashmapE[Uint16,Any] %v, present-bit then ref %v, keys are the element index %v, reader fills {Message<-NextRef, Mode<-ReadUint} %v", ww, rw, okHM, okRd, okE, okKey, okLit))
+	}
+	c.floor(R, 4)
+}
+
+// sendLimitGuard: RawSendV2 refuses more messages than the version allows before it signs anything.
+func (c *Ctx) sendLimitGuard(R string) {
+	f := c.mustFn(R, "wallet", "Wallet.RawSendV2")
+	if f == nil {
+		return
+	}
+	c.callDominatedBy(R, f, modPath+"/wallet.wallet.createSignedMsgBodyCell", requiredCheck{name: "len(internalMessages) <= maxMessageNumber()", src: func(v ssa.Value) bool {
+		b, ok := v.(*ssa.BinOp)
+		if !ok {
+			return false
+		}
+		c2 := callOf(b.Y)
+		return c2 != nil && c2.Call.IsInvoke() && c2.Call.Method.Name() == "maxMessageNumber" && strings.Join(leaves(b.X), ",") == "internalMessages" && b.Op.String() == ">"
+	}, kind: "notbool"})
 }
